@@ -1,3 +1,168 @@
+/-
+  Model driver of engine `dauth` (C12).  Same line protocol as harness/h_dauth.c:
+
+    daemon <bind> <nnc_size> <rnd-hex> <def_timeout> <def_max_nc> <discipline+1>   -> ok
+    clock <ms>                                                                      -> ok
+    conn <sockaddr-hex | ->                                                         -> ok
+    req <method> <target-hex> <authorization-hex | -> <action …>
+         -> m=<http_mthd> url=<hex> args=<k=v,…> <result of the action>
+       actions:  issue <algo> <realm>                       -> added|refused <nonce-hex>
+                 check3 <realm> <user> <password> <timeout> <max_nc> <mqop> <malgo3>     -> r=<CLASS>
+                 digest3 <realm> <user> <userdigest> <timeout> <max_nc> <mqop> <malgo3>  -> r=<CLASS>
+                 check <realm> <user> <password> <timeout>                               -> l=<YES|NO|INVALID_NONCE>
+                 check2 <realm> <user> <password> <timeout> <algo>                       -> l=…
+                 cdigest <realm> <user> <userdigest> <timeout>                           -> l=…
+                 cdigest2 <realm> <user> <userdigest> <timeout> <algo>                   -> l=…
+    calc userhash <algo3> <user> <realm>            -> <hex>
+    calc userdigest <algo3> <user> <realm> <pw>     -> <hex>
+    state                                            -> n=<size> <nc>:<mask>:<nonce> …
+  (all strings hex, "-" = empty; numbers decimal)
+-/
+import Mhd.Model.Dauth
 import Driver.Common
-/- stub: replaced by the builder of this engine -/
-def main : IO Unit := Driver.runEngine () (fun s _ => (s, ["bad-op"]))
+open Mhd.Dauth Mhd.Auth Mhd.Gen.Dauth Mhd.Gen.Auth Driver
+
+structure DSt where
+  cfg : Cfg
+  tbl : Mhd.Nonce.Table
+  now : Nat
+  addr : List UInt8
+  conn : Bool
+
+def initSt : DSt :=
+  { cfg := ⟨0, [], Mhd.Gen.Nonce.defTimeout, Mhd.Gen.Nonce.defMaxNc, true⟩, tbl := [], now := 0, addr := [], conn := false }
+
+def bad (s : DSt) : DSt × List String := (s, ["bad-op"])
+
+def algoOfIdx : Nat → Option Algo
+  | 0 => some .md5
+  | 1 => some .sha256
+  | 2 => some .sha512
+  | _ => none
+
+def hex16 (m : Nat) : String :=
+  String.ofList ((List.range 16).map fun j => hexDigit ((m / 16 ^ (15 - j)) % 16))
+
+def showSlot (s : Mhd.Nonce.Slot) : String :=
+  let m := if s.nc < 64 then s.nmask.toNat % 2 ^ s.nc else s.nmask.toNat
+  s!"{s.nc}:{hex16 m}:{hexOfBytes (s.nonce.takeWhile (· != 0))}"
+
+def showArgs (args : List (List UInt8 × Option (List UInt8))) : String :=
+  if args.isEmpty then "-" else
+  ",".intercalate (args.map fun kv =>
+    match kv.2 with
+    | none => hexOfBytes kv.1
+    | some v => hexOfBytes kv.1 ++ "=" ++ hexOfBytes v)
+
+/-- the request as the handler sees it: `process_request_target` (split at the first '?',
+    `MHD_parse_arguments_` on the query, unescape of the path), `parse_http_std_method`,
+    and the two header fields the harness sends -/
+def mkReq (s : DSt) (method target : List UInt8) (auth : Option (List UInt8)) : Req :=
+  let sp := splitFirst 63 target
+  let hostH : Hdr := ⟨headerKind, [72, 111, 115, 116], [104]⟩
+  { method := method, mthd := mthdOf method,
+    url := unescape s.cfg.strictUnescape sp.1,
+    args := match sp.2 with
+      | some q => parseArgs s.cfg.strictUnescape q
+      | none => [],
+    hdrs := match auth with
+      | some v => [hostH, ⟨headerKind, authHeader, v⟩]
+      | none => [hostH],
+    addr := s.addr }
+
+def legacyName : Legacy → String
+  | .yes => "YES" | .no => "NO" | .invalidNonce => "INVALID_NONCE" | .panic => "PANIC" | .fault => "FAULT"
+
+def U32 : Nat := 2 ^ 32
+
+def action (s : DSt) (r : Req) (ws : List String) : Option (DSt × String) :=
+  match ws with
+  | ["issue", algo, realm] =>
+    match algo.toNat?.bind algoOfIdx, bytesOfHex realm with
+    | some a, some rl =>
+      match calcNonce s.cfg r rl a s.now with
+      | none => some (s, "fault")
+      | some n =>
+        let x := Mhd.Nonce.addNonce s.tbl s.now n
+        match x.2 with
+        | .added => some ({ s with tbl := x.1 }, "added " ++ hexOfBytes n)
+        | .refused => some ({ s with tbl := x.1 }, "refused " ++ hexOfBytes n)
+        | .fault => some (s, "fault")
+    | _, _ => none
+  | [kind, realm, user, sec, tmo, mx, mqop, malgo] =>
+    match bytesOfHex realm, bytesOfHex user, bytesOfHex sec, tmo.toNat?, mx.toNat?, mqop.toNat?, malgo.toNat? with
+    | some rl, some u, some sc, some t, some m, some q, some ma =>
+      if t ≥ U32 ∨ m ≥ U32 ∨ q ≥ 256 ∨ ma ≥ 256 then none else
+      let secret? : Option Secret :=
+        if kind = "check3" then some (.password sc) else if kind = "digest3" then some (.userdigest sc) else none
+      match secret? with
+      | none => none
+      | some secret =>
+        let x := digestCheck s.cfg s.tbl s.now r ⟨rl, u, secret, t, m, q, ma⟩
+        some ({ s with tbl := x.1 }, "r=" ++ x.2.name)
+    | _, _, _, _, _, _, _ => none
+  | [kind, realm, user, sec, tmo] =>
+    match bytesOfHex realm, bytesOfHex user, bytesOfHex sec, tmo.toNat? with
+    | some rl, some u, some sc, some t =>
+      if t ≥ U32 then none else
+      let secret? : Option Secret :=
+        if kind = "check" then some (.password sc) else if kind = "cdigest" then some (.userdigest sc) else none
+      match secret? with
+      | none => none
+      | some secret =>
+        let x := legacyCheck s.cfg s.tbl s.now r rl u secret t algMd5
+        some ({ s with tbl := x.1 }, "l=" ++ legacyName x.2)
+    | _, _, _, _ => none
+  | [kind, realm, user, sec, tmo, algo] =>
+    match bytesOfHex realm, bytesOfHex user, bytesOfHex sec, tmo.toNat?, algo.toNat? with
+    | some rl, some u, some sc, some t, some al =>
+      if t ≥ U32 ∨ al > 2 then none else
+      let secret? : Option Secret :=
+        if kind = "check2" then some (.password sc) else if kind = "cdigest2" then some (.userdigest sc) else none
+      match secret? with
+      | none => none
+      | some secret =>
+        let x := legacyCheck s.cfg s.tbl s.now r rl u secret t al
+        some ({ s with tbl := x.1 }, "l=" ++ legacyName x.2)
+    | _, _, _, _, _ => none
+  | _ => none
+
+def algoOf3 (n : Nat) : Option Algo := if n = algoInvalid then none else baseAlgo n
+
+def stepLine (s : DSt) (ws : List String) : DSt × List String :=
+  match ws with
+  | ["daemon", bind, size, rnd, dt, dm, disc] =>
+    match bind.toNat?, size.toNat?, bytesOfHex rnd, dt.toNat?, dm.toNat?, disc.toNat? with
+    | some b, some n, some r, some t, some m, some dc =>
+      if b ≥ 16 ∨ n > 64 ∨ t ≥ U32 ∨ m ≥ U32 ∨ dc > 2 ∨ t = 0 ∨ m = 0 then bad s
+      else ({ cfg := ⟨bindOfOption b, r, t, m, decide (dc ≥ 1)⟩, tbl := Mhd.Nonce.Table.init n, now := s.now, addr := [], conn := false }, ["ok"])
+    | _, _, _, _, _, _ => bad s
+  | ["clock", t] =>
+    match t.toNat? with
+    | some k => if k < 2 ^ 64 then ({ s with now := k }, ["ok"]) else bad s
+    | none => bad s
+  | ["conn", a] =>
+    match bytesOfHex a with
+    | some ab => if ab.length = 0 ∨ ab.length = sinSize ∨ ab.length = sin6Size then ({ s with addr := ab, conn := true }, ["ok"]) else bad s
+    | none => bad s
+  | "req" :: method :: target :: auth :: act =>
+    if !s.conn then bad s else
+    match bytesOfHex target, (if auth = "-" then some none else (bytesOfHex auth).map some) with
+    | some tg, some av =>
+      let r := mkReq s method.toUTF8.toList tg av
+      match action s r act with
+      | none => bad s
+      | some (s', out) => (s', [s!"m={r.mthd} url={hexOfBytes r.url} args={showArgs r.args} {out}"])
+    | _, _ => bad s
+  | ["calc", "userhash", a3, user, realm] =>
+    match a3.toNat?.bind algoOf3, bytesOfHex user, bytesOfHex realm with
+    | some a, some u, some rl => (s, [hexOfBytes (userhash a u rl)])
+    | _, _, _ => bad s
+  | ["calc", "userdigest", a3, user, realm, pw] =>
+    match a3.toNat?.bind algoOf3, bytesOfHex user, bytesOfHex realm, bytesOfHex pw with
+    | some a, some u, some rl, some p => (s, [hexOfBytes (userdigest a u rl p)])
+    | _, _, _, _ => bad s
+  | ["state"] => (s, [s!"n={s.tbl.length}" ++ String.join (s.tbl.map fun sl => " " ++ showSlot sl)])
+  | _ => bad s
+
+def main : IO Unit := Driver.runEngine initSt stepLine
